@@ -41,9 +41,12 @@ const (
 var BaseTime = time.Date(2030, 1, 1, 0, 0, 0, 0, time.UTC)
 
 // AssetDenoms is the fixed menu of denominations that governance may whitelist.
-var AssetDenoms = []string{"aaa", "ibc/4A5B6C7D8E9F0A1B2C3D4E5F6A7B8C9D0E1F2A3B4C5D6E7F8A9B0C1D2E3F4A5B", "weth18"}
+// Two pairs are related on purpose: "eth18" is a proper tail of "weth18", and "aaa" is both a
+// head and a tail of "aaaa" — key builders that forget a length prefix confuse such denominations.
+var AssetDenoms = []string{"aaa", "ibc/4A5B6C7D8E9F0A1B2C3D4E5F6A7B8C9D0E1F2A3B4C5D6E7F8A9B0C1D2E3F4A5B", "weth18", "eth18", "aaaa"}
 
 type World struct {
+	BaseTime   time.Time
 	App        *app.App
 	Base       sdk.Context
 	Vals       []sdk.ValAddress
@@ -91,9 +94,12 @@ func (w *World) mintTo(ctx sdk.Context, addr sdk.AccAddress, coins sdk.Coins) {
 var bigFund, _ = math.NewIntFromString("1000000000000000000000000000000000000") // 1e36
 
 // NewWorld builds the base state. It is called once per process.
-func NewWorld(t *testing.T) *World {
+func NewWorld(t *testing.T) *World { return NewWorldAt(t, BaseTime) }
+
+// NewWorldAt builds the same base state at another base block time (time-translation leg of C19).
+func NewWorldAt(t *testing.T, base time.Time) *World {
 	t.Helper()
-	w := &World{}
+	w := &World{BaseTime: base}
 
 	// one genesis validator with a fixed key
 	pv := ed25519.GenPrivKeyFromSecret([]byte("verif-genval-0"))
@@ -109,7 +115,7 @@ func NewWorld(t *testing.T) *World {
 		Coins:   sdk.NewCoins(sdk.NewCoin(sdk.DefaultBondDenom, math.NewInt(100_000_000_000_000))),
 	}
 	w.App = app.SetupWithGenesisValSet(t, valSet, []authtypes.GenesisAccount{acc}, balance)
-	ctx := w.App.NewContext(true).WithBlockTime(BaseTime).WithBlockHeight(2).
+	ctx := w.App.NewContext(true).WithBlockTime(base).WithBlockHeight(2).
 		WithEventManager(sdk.NewEventManager())
 	ctx = ctx.WithVoteInfos([]abci.VoteInfo{})
 
